@@ -19,15 +19,15 @@ cp $OUT/notes.md seeded/$ID/notes.md 2>/dev/null
 for f in $OUT/*.py; do cp $f seeded/$ID/ 2>/dev/null; done
 RES=""
 echo "== our checks on the change"
-git -C /repo apply /verif/seeded/$ID/patch.diff || { echo "PATCH DOES NOT APPLY"; exit 3; }
+# our checks run against the scratch worktree (which has the change applied); evidence of these runs goes to a scratch directory
+mkdir -p /tmp/seed/evidence_$ID
 CHK=${ID%[a-z]}
 for C in $CHK "$@"; do
-  ./vcheck $C > /tmp/seed/$ID.$C.vcheck.log 2>&1; RC=$?; echo "vcheck $C exit=$RC $(grep -c VIOLATION /tmp/seed/$ID.$C.vcheck.log) violation lines"; grep "key=" /tmp/seed/$ID.$C.vcheck.log | cut -c1-200 | head -4
+  VERIF_REPO=$W VERIF_EVIDENCE_DIR=/tmp/seed/evidence_$ID ./vcheck $C > /tmp/seed/$ID.$C.vcheck.log 2>&1; RC=$?; echo "vcheck $C exit=$RC $(grep -c VIOLATION /tmp/seed/$ID.$C.vcheck.log) violation lines"; grep "key=" /tmp/seed/$ID.$C.vcheck.log | cut -c1-200 | head -4
   KEYS=$(grep "key=" /tmp/seed/$ID.$C.vcheck.log | sed 's/.*key=\([^ ]*\) .*/\1/' | sort -u | head -8 | tr '\n' ' ')
   RES="$RES$C:exit=$RC:$KEYS;"
 done
-git -C /repo checkout -- .
-git -C /repo status --short | head -3
+rm -rf /tmp/seed/evidence_$ID
 python3 - "$ID" "$TESTS" "$DW" "$DWO" "$RES" <<'PY'
 import json, sys, os
 pid, tests, dw, dwo, res = sys.argv[1:6]
@@ -39,7 +39,7 @@ meta = {'property': pid.rstrip('abcdefgh'), 'seed_id': pid, 'origin': 'independe
         'our_checks_on_change': [r for r in res.split(';') if r],
         'what_was_run': ['cd <scratch worktree with change> && /venv/bin/python -m pytest -q -p no:cacheprovider --timeout=900',
                          '/venv/bin/python _out/demo.py (with change, then after git stash)',
-                         'git -C /repo apply patch.diff; ./vcheck <id> (quick tier); git -C /repo checkout -- .']}
+                         'VERIF_REPO=<scratch worktree with the change> ./vcheck <id> (quick tier); equivalent to git -C /repo apply patch.diff; ./vcheck <id>; git -C /repo checkout -- .']}
 json.dump(meta, open(d + '/meta.json', 'w'), indent=1)
 print('meta written', meta['our_checks_on_change'])
 PY
